@@ -81,13 +81,10 @@ def ybranch(fam, params):
 def make(fam, params, exp=False, **kw):
     """params may carry the marker "__reinit__": the model is then rebuilt the way calibration rebuilds it (parameter object
     edited and re-initialised, zoo.reinitialised) - a second construction history of the same model"""
-    params = dict(params)
-    reinit = params.pop("__reinit__", False)
     if fam == "bs":
         em = zoo.make_exp("bs", params, **kw)
         return em if exp else em.levy_model
-    m = zoo.make_exp(fam, params, **kw) if exp else zoo.make_levy(fam, params)
-    return zoo.reinitialised(m, fam, params) if reinit else m
+    return zoo.make_exp(fam, params, **kw) if exp else zoo.make_levy(fam, params)
 
 
 # ------------------------------------------------------------------------------------------------- quadrature of nu
